@@ -680,6 +680,11 @@ class SynthDef(metaclass=MetaSynthDef):
 
             allcns_tmp = [
                 x for x in self._all_control_names if x.rate != 'noncontrol']
+            # The description reader rejects these as malformed.
+            if len(allcns_tmp) > 255:
+                raise Exception(
+                    'a SynthDef cannot have more than 255 control names')
+            cnames = set()
             frw.write_i32(file, len(allcns_tmp))
             for item in allcns_tmp:
                 if not isinstance(item, iou.ControlName):
@@ -690,6 +695,10 @@ class SynthDef(metaclass=MetaSynthDef):
                     raise Exception(
                         'SynthDef self._all_control_names has '
                         f'empty ControlName object = {item.name}')
+                elif item.name in cnames:
+                    raise Exception(
+                        f"duplicated control name '{item.name}'")
+                cnames.add(item.name)
                 frw.write_pascal_str(file, item.name)
                 frw.write_i32(file, item.index)
 
